@@ -249,10 +249,38 @@ def run_shards(mod, tier, seed):
     if nproc <= 1 or len(jobs) == 1:
         dumps = [_shard_worker(j) for j in jobs]
     else:
-        ctx = mp.get_context("spawn")
-        with ctx.Pool(min(nproc, len(jobs))) as pool:
-            dumps = pool.map(_shard_worker, jobs, chunksize=1)
+        dumps = _run_jobs(jobs, min(nproc, len(jobs)))
     return merge(dumps)
+
+
+def _run_jobs(jobs, nproc):
+    """Run the shard jobs in spawned worker processes.  A worker that dies (killed by the kernel, a crash of the
+    interpreter) must neither hang the run nor pass silently: the shards that were lost are run again, one process each;
+    a shard whose process dies a second time is reported as a harness error (exit 2), never as a violation."""
+    import concurrent.futures as cf
+    from concurrent.futures.process import BrokenProcessPool
+
+    ctx = mp.get_context("spawn")
+    results = {}
+    lost = []
+    with cf.ProcessPoolExecutor(max_workers=nproc, mp_context=ctx) as ex:
+        futs = {ex.submit(_shard_worker, j): i for i, j in enumerate(jobs)}
+        for f in cf.as_completed(futs):
+            i = futs[f]
+            try:
+                results[i] = f.result()
+            except BrokenProcessPool:
+                lost.append(i)
+    for i in sorted(lost):
+        try:
+            with cf.ProcessPoolExecutor(max_workers=1, mp_context=ctx) as ex:
+                results[i] = ex.submit(_shard_worker, jobs[i]).result()
+            results[i].setdefault("extra", {})["shards_run_again_after_a_worker_died"] = 1
+        except BrokenProcessPool:
+            col = Collector()
+            col.errors.append(f"worker process of shard {jobs[i][3]} (phase {jobs[i][5]}) died twice; its cases were not evaluated")
+            results[i] = col.dump()
+    return [results[i] for i in range(len(jobs))]
 
 
 def bucket_matches(rec_bucket: str, bucket: str) -> bool:
